@@ -25,9 +25,32 @@ import vlib
 LEVEL = "fault_enumeration"
 
 
+# the classes of spec/C09_hist.cfg BigCuts: where the translate writer's 4096-byte write
+# boundary falls in an entry whose first pair is the key "big"
+BIG_CUTS = ["inkey", "lastbyte", "between", "afterid", "aftersize", "firstbyte"]
+
+
+def has_bigbatch(beh):
+    """A keyed import that allocates "big" first and at least one more column key in the
+    same translate entry: only then the write boundary can fall on the next pair."""
+    have = ["base"]
+    for st in beh:
+        if st["op"] == "ImportKeyed":
+            new = []
+            for k in st.get("cks", []):
+                if k not in have and k not in new:
+                    new.append(k)
+            if len(new) >= 2 and new[0] == "big":
+                return True
+        have = st["post"]["ck"]
+    return False
+
+
 def features(beh):
     """Coverage features of a history, for the stratified selection."""
     fs = set()
+    if has_bigbatch(beh):
+        fs.add("bigbatch")
     for st in beh:
         op = st["op"]
         f = [op]
@@ -64,10 +87,26 @@ def select(path, out, n, seed):
         chosen.append(best)
         covered |= feats[best]
         left.remove(best)
+    # every history with such a translate entry is run once per write-boundary class
+    # (at most 2 histories are multiplied, to keep the run time where it is)
+    extra = []
+    multiplied = 0
+    for i in chosen:
+        if multiplied < 2 and has_bigbatch(pool[i]):
+            multiplied += 1
+            for cut in BIG_CUTS:
+                if cut == pool[i][0].get("bigcut"):
+                    continue
+                clone = json.loads(json.dumps(pool[i]))
+                for st in clone:
+                    st["bigcut"] = cut
+                extra.append(clone)
     with open(out, "w") as f:
         for i in chosen:
             f.write(json.dumps(pool[i]) + "\n")
-    return len(chosen), len(covered)
+        for b in extra:
+            f.write(json.dumps(b) + "\n")
+    return len(chosen) + len(extra), len(covered)
 
 
 def run(ctx):
@@ -283,6 +322,7 @@ MC_QUICK = [
 MC_THOROUGH = [
     ("C09_mc_fixed", False, "as C09_mc_quick with 2 bits per fragment, plus the refinement Durability => DurabilityAbs"),
     ("C09_mc_deep", False, "4 writes (1 bit, kinds bit/roaring/rowop)"),
+    ("C09_mc_cutclass", True, "hypothetical: a translate entry cut between two pairs / after an id varint is not recognised as a torn tail by replayEntries: RestartSucceeds fails (TranslateWrite with the cut-position class as a parameter)"),
     ("C09_mc_notrunc", True, "hypothetical: .snapshotting opened without O_TRUNC - a leftover of one Crash/Recover epoch reaches the data file in the next (the invariants span epochs)"),
     ("C09_mc_asfound_restart", True, "code as found: a kill after the roaring header write blocks restart"),
     ("C09_mc_asfound_translate", True, "code as found: a kill inside a chunked translate entry blocks restart"),
